@@ -14,10 +14,11 @@ from . import c15
 G = 0.0125
 CFG = 'SPECIFICATION Spec\nCONSTANT Mode = "%s"\nINVARIANT StraightIsPresent\nINVARIANT FreqStrict\nACTION_CONSTRAINT Emit\nCHECK_DEADLOCK FALSE\n'
 TRACE_CFG = "SPECIFICATION Spec\nCHECK_DEADLOCK FALSE\n"
-# the model topology of HBond.tla (atom ids 1..13), realised with real residues / names so that is_water / is_sidechain come out as specified
+# the model topology of HBond.tla (atom ids 1..15), realised with real residues / names so that is_water / is_sidechain come out as specified
 MODEL = [("SER", "N", "N"), ("SER", "H", "H"), ("SER", "C", "C"), ("SER", "O", "O"), ("SER", "OG", "O"), ("SER", "HG", "H"),
-         ("LYS", "NZ", "N"), ("LYS", "HZ1", "H"), ("HOH", "O", "O"), ("HOH", "H1", "H"), ("CYS", "SG", "S"), ("CYS", "HG", "H"), ("PRO", "N", "N")]
-BONDS = [(1, 2), (3, 4), (6, 5), (7, 8), (9, 10), (11, 12), (1, 3)]
+         ("LYS", "NZ", "N"), ("LYS", "HZ1", "H"), ("HOH", "O", "O"), ("HOH", "H1", "H"), ("CYS", "SG", "S"), ("CYS", "HG", "H"), ("PRO", "N", "N"),
+         ("SER", "H2", "H"), ("LYS", "H", "H")]
+BONDS = [(1, 2), (3, 4), (6, 5), (7, 8), (9, 10), (11, 12), (1, 3), (1, 14), (15, 7)]
 CELLS = [None, [[640, 0, 0], [0, 680, 0], [0, 0, 720]], [[640, 0, 0], [-200, 640, 0], [-160, -240, 600]]]
 
 
@@ -47,9 +48,9 @@ def _far_positions():
 def _triplet_case(rec):
     import mdtraj as md
     top = model_topology()
-    flags = [(a.residue.is_water, a.is_sidechain) for a in top.atoms]
+    flags = [(top.atom(i).residue.is_water, top.atom(i).is_sidechain) for i in range(top.n_atoms)]
     exp_flags = [(False, False), (False, False), (False, False), (False, False), (False, True), (False, True), (False, True), (False, True),
-                 (True, False), (True, False), (False, True), (False, True), (False, False)]
+                 (True, False), (True, False), (False, True), (False, True), (False, False), (False, True), (False, False)]
     if flags != exp_flags:
         return "MACHINERY: model topology flags differ from the specification's table: %s" % (flags,)
     xyz = (_far_positions() * G).astype(np.float32)[None] * 0 + np.random.RandomState(1).rand(1, len(MODEL), 3).astype(np.float32) * 0.3
@@ -293,7 +294,7 @@ def run(ctx):
     cov = dict(traces_validated_against_impl=n_replay + len(recs), replays=n_replay, ks_frames=len(recs), ks_accepted=len(acc), ks_inconclusive=len(skp), ks_rejected=len(rej),
                wn_undecided_fraction=und, bh_ties_excluded=sum(1 for g in geom if g["bhtie"]), replays_failing=nfail,
                samples=[trip[0], geom[len(geom) // 2], freq[len(freq) // 2]],
-               explanation="triplet generation for every (exclude_water, sidechain_only) on a 13-atom model topology; Baker-Hubbard and Wernet-Nilsson decided exactly / by bracket table "
+               explanation="triplet generation for every (exclude_water, sidechain_only) on a 15-atom model topology (incl. an N-terminal amine hydrogen that is a side-chain atom on a backbone nitrogen); Baker-Hubbard and Wernet-Nilsson decided exactly / by bracket table "
                            "for 152 acceptor positions on a 0.0125 nm lattice, replayed without cell and in orthorhombic / triclinic cells with per-atom lattice shifts; frequency threshold "
                            "for every (frames 1..4, present k, freq in {0,1/10,1/4,1/3,1/2,2/3,3/4,1}); Kabsch-Sander pair sets and energies of real / perturbed / synthetic backbones validated "
                            "from independently computed distances (documented virtual hydrogen) by HBondTrace.tla")
